@@ -104,7 +104,11 @@ class mm_reader {
 
             // The last line is comment-free and holds the matrix sizes
             is.clear(); is.str(line);
-            precondition(is >> nrows >> ncols, format_error());
+            ptrdiff_t n, m;
+            precondition(is >> n >> m, format_error());
+            precondition(n >= 0 && m >= 0, format_error("negative matrix size"));
+            nrows = n;
+            ncols = m;
         }
 
         /// Matrix in the file is symmetric.
@@ -155,6 +159,8 @@ class mm_reader {
                 // line already holds the matrix sizes
                 is.clear(); is.str(line);
                 precondition(is >> n >> m >> nnz, format_error());
+                precondition(n >= 0 && m >= 0, format_error("negative matrix size"));
+                precondition(!_symmetric || n == m, format_error("symmetric matrix is not square"));
             }
 
             if (row_beg < 0) row_beg = 0;
@@ -184,6 +190,11 @@ class mm_reader {
                 Val v;
 
                 precondition(is >> i >> j, format_error());
+
+                precondition(
+                        i >= 1 && static_cast<ptrdiff_t>(i) <= n &&
+                        j >= 1 && static_cast<ptrdiff_t>(j) <= m,
+                        format_error("index out of range"));
 
                 i -= 1;
                 j -= 1;
@@ -263,6 +274,7 @@ class mm_reader {
                 // line already holds the matrix sizes
                 is.clear(); is.str(line);
                 precondition(is >> n >> m, format_error());
+                precondition(n >= 0 && m >= 0, format_error("negative matrix size"));
             }
 
             if (row_beg < 0) row_beg = 0;
